@@ -57,8 +57,8 @@ def plan(tier):
                 sname = 'vp_%s_%s_%s' % (tag, oi.op, oi.tag)
                 src[cfg].append(shim(C06._ret_short(oi), sname, oi.params(), C06.tagged_call(oi, tag)))
                 heavy = oi.op in ('multiply', 'divide') and max(t.bits for t in oi.ts) >= 32
-                if heavy and oi.op == 'multiply' and cfg.startswith('clang') and not thorough:
-                    continue      # portable multiply predicate vs the final mul nsw at >= 32 bits: minutes of kissat, thorough tier only
+                if heavy and oi.op == 'multiply' and cfg.startswith('clang'):
+                    continue      # portable multiply predicate vs the final mul nsw at >= 32 bits: no SAT answer within the budgets (see C06 hardness), not claimed
                 jobs.append(Job('%s.%s.%s.%s.%s' % (PROP, cfg, oi.op, tag, oi.tag), 'C07_' + cfg,
                                 C06.custop_pattern(oi, tag),
                                 Contract(requires=oi.requires(C06.ptr_args(oi)), ensures=[], assigns=[],
@@ -70,6 +70,6 @@ def plan(tier):
     kernels = [Kernel('C07_' + c, ''.join(src[c]), f, c) for c, f in cfgs.items()]
     meta = {'instantiations': n,
             'explanation': 'whole tagged operator verified with all callees inlined; every UB flag of the clang -O0 IR is a named obligation',
-            'not_applicable_parts': ['floating-point sources of convert are covered by C06/C09 float jobs only'],
+            'not_applicable_parts': ['portable-path multiply with an operand of 32 bits or more: "predicates say no overflow => mul nsw defined" is a multiplier/divider equivalence beyond the SAT budgets', 'floating-point sources of convert are covered by C06/C09 float jobs only'],
             'assumptions': []}
     return {'kernels': kernels, 'jobs': jobs, 'meta': meta}
